@@ -686,7 +686,10 @@ class Interp:
             else:
                 b = obj.owner
                 if b.name is not None:
-                    raise Unsupported("named batch slot store")
+                    # IC10 has no name-filtered batch slot store; the source means "only the devices of
+                    # that name", which an unfiltered sbs does not do (recorded finding)
+                    self.effect("sbns", b.prefab, b.name, obj.index, stv, v)
+                    return
                 self.effect("sbs", b.prefab, obj.index, stv, v)
             return
         raise Unsupported(f"attribute store on {type(obj).__name__}")
